@@ -32,6 +32,9 @@ func replayOne(cfg Config, b *behaviour) *Driver {
 	if !timed {
 		cfg.TTLUnits = 1 << 20 // no Tick in the behaviour: the model clock never advances, so nothing may expire
 	}
+	for _, st := range b.Steps {
+		cfg.Auto = cfg.Auto || st.Au != 0
+	}
 	for attempt := 0; attempt < 3; attempt++ {
 		var err error
 		d, err = NewDriver(cfg)
